@@ -69,6 +69,18 @@ CLAIMED = {
              'reports and EACH requirement becomes died (expected_destruction via notify_fold); still-alive once and forgotten by the object '
              '(still_alive, forgotten_by_object); copies/moves do not inherit, assignment keeps (copies_do_not_inherit, assign_keeps).',
         ref='DESIGN.md §4 C13', technique='Lean 4 proof (induction over the monitor chain) + model/implementation correspondence'),
+    'C14': dict(
+        text='Theorems: the linkage invariant WF (every id on a mock function list denotes a live expectation attached to exactly that '
+             'object/function/list; lists duplicate-free and disjoint; dead expectations unlinked; counters agree with the list) is preserved by '
+             'every one of the 23 operations, legal or not (WF.step), hence holds after ANY script (reachable_WF) - every order of '
+             'release/kill/move/killseq/killw/releasemon/killtracer interleaved with calls and queries; no_dangling_entry, destroyed_is_unlisted, '
+             'entry_unique, counters_consistent; move: lists change owner with order kept (move_transfers) and ANY series of calls on the new '
+             'object yields the events the same calls on the old object would have (move_preserves_behaviour, by a simulation relation kept by '
+             'callFn). Correspondence under ASan+LeakSanitizer+UBSan+TROMPELOEIL_SANITY_CHECKS: random permutations of destruction/move '
+             'operations over populations of mocks/expectations/sequences/monitors/watched/tracers interleaved with calls and queries; a '
+             'sanitizer abort is a violation. Partial: memory safety is proved for the reference structure of the model; that the C++ keeps no '
+             'other pointers is observed by the sanitizers on the explored histories.',
+        ref='DESIGN.md §4 C14', technique='Lean 4 proof (invariant by induction over all operations; simulation for move) + sanitizer-instrumented model/implementation correspondence'),
     'C15': dict(
         text='Theorems: every report of a call is fatal, every report of any other operation non-fatal (call_reports_fatal, '
              'destructor_reports_nonfatal: case analysis over all 23 operations); structure of the no-match listing: saturated matches or '
